@@ -186,9 +186,133 @@ def unit_task(payload):
     return res
 
 
+# ---------------------------------------------------------------------------------------------- client histories
+# The assessment as a caller gets it: one HipRaXClient instance serving a sequence of requests for ONE file path whose content is rewritten
+# between the calls. Contents 0 and 1 have the same byte length (a cache keyed on path, size or modification time cannot tell them apart),
+# 2/3 are the area and thickness doubled, 4 is the thickness written in metres, 5 is rejected (porosity out of range).
+def _content(i):
+    b = dict(BASE)
+    if i == 1:
+        b['Reservoir Area'] = 27.5
+    elif i == 2:
+        b['Reservoir Area'] = 110.0
+    elif i == 3:
+        b['Reservoir Thickness'] = 0.5
+    elif i == 4:
+        b['Reservoir Thickness'] = '250.0 m'
+    elif i == 5:
+        b['Reservoir Porosity'] = 250.0
+    return ''.join(f'{k}, {v}\n' for k, v in b.items())
+
+
+N_CONTENTS = 6
+
+
+def client_history(spec):
+    """child: spec = {hist: [content index...], mtime: newer|same|older, reuse: bool, caching: bool}; one observation per request."""
+    import tempfile
+    import logging
+    logging.disable(logging.CRITICAL)
+    from hip_ra_x import HipRaXClient
+    from hip_ra import HipRaInputParameters
+    d = tempfile.mkdtemp(prefix='hipc-')
+    path = os.path.join(d, 'assessment.txt')
+    client = HipRaXClient(enable_caching=spec['caching'])
+    t0 = 1_600_000_000
+    req = None
+    obs = []
+    for i, ci in enumerate(spec['hist']):
+        with open(path, 'w') as f:
+            f.write(_content(ci))
+        t = t0 + (10 * i if spec['mtime'] == 'newer' else -10 * i if spec['mtime'] == 'older' else 0)
+        os.utime(path, (t, t))
+        if req is None or not spec['reuse']:
+            req = HipRaInputParameters(path)
+        cwd0, argv0 = os.getcwd(), list(sys.argv)
+        try:
+            r = client.get_hip_ra_result(req)
+            o = {'ok': {k: [v.get('value'), v.get('unit')] for k, v in r.result.items()}}
+        except BaseException as e:  # noqa
+            o = {'err': type(e).__name__}
+        o['cwd_kept'] = os.getcwd() == cwd0
+        o['argv_kept'] = list(sys.argv) == argv0
+        obs.append(o)
+    return obs
+
+
+def client_task(payload):
+    res = check.new_result()
+    ref = {}
+    for ci in range(N_CONTENTS):
+        tag = runner.fork_exec(client_history, {'hist': [ci], 'mtime': 'newer', 'reuse': False, 'caching': True}, timeout=120)
+        res['execs'] += 1
+        if tag[0] != 'ok':
+            res['infra'].append(f'HIP client reference run failed: {tag[1]}')
+            return res
+        ref[ci] = {k: v for k, v in tag[1][0].items() if k in ('ok', 'err')}
+    # the references themselves: doubling area / thickness doubles the printed extensive figures (to printed precision), metres = kilometres
+    def val(ci, name):
+        return (ref[ci].get('ok') or {}).get(name, [None])[0]
+    for ci, what in ((2, 'area'), (3, 'thickness')):
+        for name in ('Reservoir Volume (reservoir)', 'Stored Heat (reservoir)', 'Producible Heat (reservoir)'):
+            a, b_ = val(0, name), val(ci, name)
+            if a is None or b_ is None or not mv.close(b_, 2 * a, 1e-2, 0):
+                check.fail(res, f'client/scaling/{what}/{name}', f'client result: {name} = {b_!r} with the {what} doubled, {a!r} before')
+    if ref[4] != ref[0] and 'ok' in ref[0]:
+        bad = [k for k in ref[0]['ok'] if (ref[4].get('ok') or {}).get(k) != ref[0]['ok'][k]]
+        if bad:
+            check.fail(res, 'client/units/thickness_m', f'client result with the thickness written as 250.0 m differs from 0.25 km in {bad[:3]}')
+    for spec in payload['specs']:
+        tag = runner.fork_exec(client_history, spec, timeout=300)
+        res['execs'] += 1
+        res['steps'] += len(spec['hist'])
+        if tag[0] != 'ok':
+            res['infra'].append(f'HIP client history failed: {tag[1]} {spec}')
+            continue
+        res['accepted'] += 1
+        mode = f"{spec['mtime']}/{'same_request_object' if spec['reuse'] else 'new_request_object'}/{'caching' if spec['caching'] else 'no_caching'}"
+        for i, (ci, o) in enumerate(zip(spec['hist'], tag[1])):
+            got = {k: v for k, v in o.items() if k in ('ok', 'err')}
+            if got != ref[ci]:
+                if 'ok' in got and 'ok' in ref[ci]:
+                    bad = [k for k in ref[ci]['ok'] if got['ok'].get(k) != ref[ci]['ok'][k]]
+                    msg = f'{bad[:3]}: e.g. {got["ok"].get(bad[0]) if bad else None!r} instead of {ref[ci]["ok"].get(bad[0]) if bad else None!r}'
+                else:
+                    msg = f'{list(got)[0]} instead of {list(ref[ci])[0]}'
+                check.fail(res, f'client/stale_or_foreign_result/{mode}', f'request {i} of history {spec["hist"]} (content {ci}) is not answered with the assessment of '
+                           f'that content as a fresh process gives it: {msg}')
+            if not o['cwd_kept'] or not o['argv_kept']:
+                check.fail(res, 'client/caller_state', f'request {i} of history {spec["hist"]} left cwd kept={o["cwd_kept"]} argv kept={o["argv_kept"]}')
+        d = check.digest(['client', spec])
+        res['states'].append(d)
+        if len(spec['hist']) > 1:
+            res['nontrivial'].append(d)
+    res['sample'] = {'hip_ra_x_client_history': payload['specs'][0] if payload['specs'] else None}
+    return res
+
+
+def client_plan(tier):
+    P, specs = [], []
+    depth = 2 if tier == 'quick' else 3
+    for n in range(1, depth + 1):
+        for hist in itertools.product(range(N_CONTENTS), repeat=n):
+            for mt in ('newer', 'same', 'older'):
+                for reuse in (False, True):
+                    for caching in (True, False):
+                        if n == 1 and (mt != 'newer' or reuse):
+                            continue
+                        specs.append({'hist': list(hist), 'mtime': mt, 'reuse': reuse, 'caching': caching})
+    B = 24
+    for i in range(0, len(specs), B):
+        P.append({'kind': 'client', 'specs': specs[i:i + B]})
+    return P
+
+
 def task(payload):
     if payload.get('kind') == 'units':
         return unit_task(payload)
+    if payload.get('kind') == 'client':
+        return client_task(payload)
     return point_task(payload)
 
 
@@ -242,6 +366,7 @@ def plan(tier, seed):
         for name, decl in UNIT_PARAMS.items():
             if name in BASE or name in extra:
                 P.append({'kind': 'units', 'params': [[name, decl]], 'extra': extra})
+    P.extend(client_plan(tier))
     return P
 
 
@@ -252,7 +377,10 @@ def run(tier, seed, budget=None):
               'discovered from the live parameter dictionary: all single deviations and all pairs of deviations (quick: 3 values per parameter '
               'in pairs) from the base; volumetric identities, additivity and the heat cascade on every accepted point; area and thickness '
               'scaled by k in {0.5,2,10} on every single-deviation point (and on temperature/porosity pairs in thorough); every unit-bearing input '
-              're-expressed in every convertible catalogue unit. Non-trivial = stored '
-              'heat positive and producible heat finite'),
+              're-expressed in every convertible catalogue unit. Client level: one HipRaXClient instance and one file path, ALL request histories of '
+              'length <= 2 (thorough: 3) over 6 file contents (two of equal byte length, area x2, thickness x2, thickness in metres, a rejected one) x '
+              'modification time of the rewritten file {newer, same, older} x {new, same} request object x caching {on, off}: every answer must equal '
+              'the fresh-process answer for that content, caller cwd/argv kept. Non-trivial = stored '
+              'heat positive and producible heat finite / history of >= 2 requests'),
         assumptions=['unit variants: every convertible catalogue unit for temperature, area, thickness, density, depth and pressure inputs (own conversion table)',
                      'outputs that the calculator never fills (rock/fluid split of available and producible heat) are 0 in every run and only checked for invariance'])
